@@ -32,5 +32,9 @@ def generate(rng, tier):
     for _ in range(600 if tier == 'thorough' else 60):
         pool = [b'u@a.example', b'v@a.example', b'u@b.example', b'nobody', b'u@A.EXAMPLE', b'x@sub.a.example', b'u@a.examplex', b'u@;bad', b'w@c.test', b'u@xa.example']
         seq = [rng.choice(pool) for _ in range(rng.randrange(2, 7))]
-        ops.append('op dynrealm %s %s' % (hx(cmds[0].encode()), ' '.join(hx(x) for x in seq)))
+        if rng.random() < 0.4:
+            # the servers of the sub-realms end; later names with several '@' / unsafe text before the last '@' re-create them
+            k = rng.randrange(1, len(seq))
+            seq = seq[:k] + [b'expire'] + seq[k:] + [rng.choice([b'x@`id`;$(reboot)@a.example', b'u@;bad@a.example', b'p@q@b.example', b'u@a.example', b'z@;x@c.test'])]
+        ops.append('op dynrealm %s %s' % (hx(cmds[0].encode()), ' '.join('expire' if x == b'expire' else hx(x) for x in seq)))
     return [(cid, ['cfg nopipe'] + l) for cid, l in batch(ops, 'dyn', 25)]
